@@ -221,6 +221,29 @@ func chanKey(v reflect.Value) (uintptr, bool) {
 	return v.Pointer(), true
 }
 
+// isClosed reports whether the channel is closed, also when it was closed
+// natively (by host code) rather than through the hooked Close.  An empty
+// channel is probed with a non-blocking receive: with one thread running at a
+// time no real sender can be waiting, so the probe either reports "closed" or
+// does nothing.
+func (s *Sched) isClosed(c reflect.Value, k uintptr) bool {
+	if s.closed[k] {
+		return true
+	}
+	if c.Len() > 0 {
+		return false
+	}
+	chosen, _, ok := reflect.Select([]reflect.SelectCase{{Dir: reflect.SelectRecv, Chan: c}, {Dir: reflect.SelectDefault}})
+	if chosen == 0 && !ok {
+		s.closed[k] = true
+		return true
+	}
+	if chosen == 0 && ok {
+		panic("sched: a value appeared on an empty channel while probing (operation outside the scheduler)")
+	}
+	return false
+}
+
 func (s *Sched) mstate(m *vhook.RWMutex) *mstate {
 	st := s.mx[m]
 	if st == nil {
@@ -261,13 +284,13 @@ func (s *Sched) options(t *thread) []option {
 			cp := c.Chan.Cap()
 			switch c.Dir {
 			case reflect.SelectRecv:
-				if c.Chan.Len() > 0 || s.closed[k] {
+				if c.Chan.Len() > 0 || s.isClosed(c.Chan, k) {
 					res = append(res, option{t: t, ci: i})
 				} else if cp == 0 {
 					res = append(res, s.partners(t, i, k, reflect.SelectSend)...)
 				}
 			case reflect.SelectSend:
-				if s.closed[k] || (cp > 0 && c.Chan.Len() < cp) {
+				if s.isClosed(c.Chan, k) || (cp > 0 && c.Chan.Len() < cp) {
 					res = append(res, option{t: t, ci: i})
 				} else if cp == 0 {
 					res = append(res, s.partners(t, i, k, reflect.SelectRecv)...)
